@@ -43,6 +43,9 @@ class Bind:
         if idc == "max": return mx
         if idc == "max+1": return mx + 1
         if idc == "2^31-1": return 2 ** 31 - 1
+        if idc == "2^31": return 2 ** 31
+        if idc == "2^32-1": return 2 ** 32 - 1
+        if idc == "2^32-256": return 2 ** 32 - 256
         if idc.startswith("256+"):
             i = self.fidx[view].get(idc[4:])
             return None if i is None else 256 + v["fields"][i]["id"]
@@ -272,7 +275,7 @@ def finish_events(evs, outs, v, pid):
 
 TRACE_CFG = open(os.path.join(SPEC, "PduTrace.cfg")).read() if os.path.exists(os.path.join(SPEC, "PduTrace.cfg")) else ""
 
-def validate_events(v, wd, shards, pid, name="trace", module="PduTrace", cfg=None, keyfn=None, independent=True, resume=None):
+def validate_events(v, wd, shards, pid, name="trace", module="PduTrace", cfg=None, keyfn=None, independent=True, resume=None, max_resume=12):
     """Validate event lists (one per shard) with TLC in parallel.  A rejected trace is located
     (first event TLC could not match) and reported."""
     cfg = cfg or TRACE_CFG
@@ -295,7 +298,7 @@ def validate_events(v, wd, shards, pid, name="trace", module="PduTrace", cfg=Non
         results, rejected = [], []
         path = paths[i]
         start = 0
-        for attempt in range(12):
+        for attempt in range(max_resume):
             ok, res = validate_trace(module, cfg, path, wd)
             results.append(res)
             if ok:
